@@ -30,7 +30,7 @@ RULE = ("a case = one session history: a chain of 1-3 program segments (generate
         "measurements, free and measured parameters) on one backend, executed as run([p,q]), run(p);run(q), run(p+q), re-run of "
         "the same objects on a fresh engine, alternately on two engines, after reset() with a junk pre-history, with compile/"
         "optimize calls in between; fault batches additionally inject an exception before/after backend call k (k sampled, or "
-        "every k of the history = crash sweep) and then recover by reset() or by a new engine. Non-trivial: >= 2 run calls were "
+        "every k of the history = crash sweep) and then recover by reset(), reset(new options), a new engine, or a re-run on the same engine when the crash was inside the first segment. Non-trivial: >= 2 run calls were "
         "compared and (fault batches) a crash actually fired; distinct = distinct (history digest, crash point)")
 REAL = ["strawberryfields.engine.LocalEngine/BosonicEngine/BaseEngine", "strawberryfields.program.Program (compile, optimize, _linked_copy, bind_params, lock)",
         "strawberryfields.ops (Gate.apply, decompose, Measurement.apply)", "strawberryfields.compilers (gaussian, fock, bosonic)",
